@@ -437,11 +437,11 @@ func replayCorrupt(raw json.RawMessage) []string {
 }
 
 func runC16(ctx *core.Ctx, pool *par.Pool) {
-	cfgs := []pagedrv.Cfg{pagedrv.CfgA, pagedrv.CfgC}
+	cfgs := []pagedrv.Cfg{pagedrv.CfgA, pagedrv.CfgC, pagedrv.CfgG}
 	depth := 5
 	ctx.SetBudget(110 * time.Second)
 	if !ctx.Quick() {
-		cfgs = []pagedrv.Cfg{pagedrv.CfgA, pagedrv.CfgB, pagedrv.CfgC, pagedrv.CfgD}
+		cfgs = []pagedrv.Cfg{pagedrv.CfgA, pagedrv.CfgB, pagedrv.CfgC, pagedrv.CfgD, pagedrv.CfgG, pagedrv.CfgH}
 		depth = 7
 		ctx.SetBudget(25 * time.Minute)
 	}
@@ -454,7 +454,11 @@ func runC16(ctx *core.Ctx, pool *par.Pool) {
 		var quiet []*xstate.Node
 		seenLog := map[string]bool{}
 		ctx.Deadline = ctx.Start.Add(full.Sub(ctx.Start) / 3)
-		st := xstate.BFS(ctx, pool, xstate.Spec{Cfg: cfg, Alphabet: crashAlphabet(true), MaxDepth: depth,
+		d := depth
+		if cfg.PageSize > 4096 { // every page size the header search has to find; images are large, few states suffice
+			d = 4
+		}
+		st := xstate.BFS(ctx, pool, xstate.Spec{Cfg: cfg, Alphabet: crashAlphabet(true), MaxDepth: d,
 			OnLevel: func(d int, fresh []*xstate.Node) {
 				for _, n := range fresh {
 					// one image per distinct logical state reached by a commit or reopen
